@@ -479,4 +479,20 @@ theorem merge_with_base (s : Schema) (hd : idsDistinct s = true) (base ours : Ro
   simp only [specKey, if_true, Prod.ext_iff] at this
   exact ⟨this.1, by simpa using this.2⟩
 
+/-- **merge_into_unchanged.**  When ours has not changed anything since the base, the merge takes
+theirs exactly (the row-level counterpart of a fast-forward), without conflicts. -/
+theorem merge_into_unchanged (s : Schema) (hd : idsDistinct s = true) (base theirs : Rows)
+    (hb : tableOk ⟨s, base⟩ = true) (ht : tableOk ⟨s, theirs⟩ = true) :
+    ∃ m, mergeTable ⟨s, base⟩ ⟨s, base⟩ ⟨s, theirs⟩ = .ok m ∧ m.sch = s ∧
+      ∀ k, get m.rows k = get theirs k ∧ k ∉ m.conflicts := by
+  obtain ⟨m, hm, hs, hspec⟩ := rowmerge_spec s hd base base theirs hb hb ht
+  refine ⟨m, hm, hs, fun k => ?_⟩
+  have := hspec k
+  unfold specKey at this
+  by_cases h1 : get theirs k = get base k
+  · simp only [h1, if_true, Prod.ext_iff] at this
+    exact ⟨this.1.trans h1.symm, by simpa using this.2⟩
+  · simp only [h1, if_false, if_true, Prod.ext_iff] at this
+    exact ⟨this.1, by simpa using this.2⟩
+
 end DoltVerif.C29
